@@ -25,27 +25,55 @@ Check fib_replay_eq_ecmp_of_best :
     fib_replay reqs (None, p) = fib_spec c (s_fl s) (d_l (s_get s p)).
 Print Assumptions fib_replay_eq_ecmp_of_best.
 
-(* (1b) For a VPN prefix, every VRF with a kernel table holds the same next hops
-   when its import targets match the best path and nothing otherwise; the best
-   path referred to is a best path in the sense of the Spec. *)
-Theorem vrf_fib_replay_eq_ecmp_of_best :
-  forall (c : cfg) (ops : list op) (i id : N) (imp : list N),
+(* (1b) For a VPN prefix (VPNv4 or VPNv6), every VRF with a kernel table holds the
+   same next hops when its import targets match the best path and nothing
+   otherwise; the best path referred to is a best path in the sense of the Spec.
+   Outside the known class C20-3 (another VPN prefix with the same VRF-local
+   prefix, i.e. another route distinguisher, has been seen): see the witness. *)
+Theorem vrf_fib_replay_eq_ecmp_of_best_outside_known :
+  forall (c : cfg) (ops : list op) (p : prefix) (id : N) (imp : list N),
+    is_vpn p = true ->
     NoDup (map fst (c_vrfs c)) -> In (id, imp) (c_vrfs c) -> id <> 0 ->
     let s := fst (run c Fixed st0 ops) in
     let reqs := snd (run c Fixed st0 ops) in
-    let l := d_l (s_get s (1, i)) in
-    fib_replay reqs (Some id, (2, i)) = vrf_spec c (s_fl s) imp l (hd_error (selectable l)) /\
+    let l := d_l (s_get s p) in
+    ~ Known_C20_3 p (s_keys s) ->
+    fib_replay reqs (Some id, local_pfx p) = vrf_spec c (s_fl s) imp l (hd_error (selectable l)) /\
     (forall b, hd_error (selectable l) = Some b -> is_best c (s_fl s) l b).
-Proof. exact C20_vrf_fib_replay_eq_ecmp_of_best. Qed.
-Check vrf_fib_replay_eq_ecmp_of_best :
-  forall (c : cfg) (ops : list op) (i id : N) (imp : list N),
+Proof. exact C20_vrf_fib_replay_eq_ecmp_of_best_outside_known. Qed.
+Check vrf_fib_replay_eq_ecmp_of_best_outside_known :
+  forall (c : cfg) (ops : list op) (p : prefix) (id : N) (imp : list N),
+    is_vpn p = true ->
     NoDup (map fst (c_vrfs c)) -> In (id, imp) (c_vrfs c) -> id <> 0 ->
     let s := fst (run c Fixed st0 ops) in
     let reqs := snd (run c Fixed st0 ops) in
-    let l := d_l (s_get s (1, i)) in
-    fib_replay reqs (Some id, (2, i)) = vrf_spec c (s_fl s) imp l (hd_error (selectable l)) /\
+    let l := d_l (s_get s p) in
+    ~ Known_C20_3 p (s_keys s) ->
+    fib_replay reqs (Some id, local_pfx p) = vrf_spec c (s_fl s) imp l (hd_error (selectable l)) /\
     (forall b, hd_error (selectable l) = Some b -> is_best c (s_fl s) l b).
-Print Assumptions vrf_fib_replay_eq_ecmp_of_best.
+Print Assumptions vrf_fib_replay_eq_ecmp_of_best_outside_known.
+
+(* (1b, witness) the full statement fails inside the class: the VRF entry is keyed
+   by the prefix without its route distinguisher, and withdrawing one of two VPN
+   prefixes that share it empties the entry although the other is still importable. *)
+Theorem vrf_fib_replay_eq_ecmp_of_best_refuted :
+  exists (c : cfg) (ops : list op) (p : prefix) (id : N) (imp : list N),
+    is_vpn p = true /\ NoDup (map fst (c_vrfs c)) /\ In (id, imp) (c_vrfs c) /\ id <> 0 /\
+    let s := fst (run c Fixed st0 ops) in
+    let l := d_l (s_get s p) in
+    Known_C20_3 p (s_keys s) /\
+    fib_replay (snd (run c Fixed st0 ops)) (Some id, local_pfx p) <>
+    vrf_spec c (s_fl s) imp l (hd_error (selectable l)).
+Proof. exact C20_vrf_fib_replay_eq_ecmp_of_best_refuted. Qed.
+Check vrf_fib_replay_eq_ecmp_of_best_refuted :
+  exists (c : cfg) (ops : list op) (p : prefix) (id : N) (imp : list N),
+    is_vpn p = true /\ NoDup (map fst (c_vrfs c)) /\ In (id, imp) (c_vrfs c) /\ id <> 0 /\
+    let s := fst (run c Fixed st0 ops) in
+    let l := d_l (s_get s p) in
+    Known_C20_3 p (s_keys s) /\
+    fib_replay (snd (run c Fixed st0 ops)) (Some id, local_pfx p) <>
+    vrf_spec c (s_fl s) imp l (hd_error (selectable l)).
+Print Assumptions vrf_fib_replay_eq_ecmp_of_best_refuted.
 
 (* (2) The registrations outstanding for an address equal the number of
    peer-learned paths currently using it (peer-level operations never name the
